@@ -654,8 +654,12 @@ def parse_template(path):
     return chunks
 
 
-def render_extract(ex, vac=False):
-    """-> (text, log, meta)"""
+def render_extract(ex, vac=False, strip_proof=False):
+    """-> (text, log, meta). strip_proof: emit without loop/before/after splices (used when one of them lost its anchor)"""
+    if strip_proof:
+        import copy
+        ex = copy.copy(ex)
+        ex.loops, ex.loop_iter, ex.before, ex.after = {}, {}, [], []
     log = []
     src_path = os.path.join(REPO, ex.file)
     try:
@@ -722,13 +726,15 @@ def render_extract(ex, vac=False):
     for a, b in ex.letty:
         body = letty_replace(body, a, b, log)
     # closures first (token indexes change afterwards): process from last to first
+    degraded = []
     if ex.closures:
         toks = tokenize(body)
         cl = find_closures(toks)
         edits = []
         for kidx, (hdr, lines) in ex.closures.items():
             if kidx < 1 or kidx > len(cl):
-                raise Undecided('closure %d not found (%d closures)' % (kidx, len(cl)))
+                degraded.append('closure %d not found (%d closures)' % (kidx, len(cl)))
+                continue
             b0, b1 = cl[kidx - 1]
             s, e = closure_body_span(toks, b1)
             inner = join(toks[s:e + 1])
@@ -748,16 +754,19 @@ def render_extract(ex, vac=False):
         edits = []
         for kidx, lines in ex.loops.items():
             if kidx < 1 or kidx > len(lp):
-                raise Undecided('loop %d not found (%d loops)' % (kidx, len(lp)))
+                degraded.append('loop %d not found (%d loops)' % (kidx, len(lp)))
+                continue
             bo = loop_body_open(toks, lp[kidx - 1])
             edits.append((toks[bo][2], toks[bo][2], '\n' + '\n'.join(lines) + '\n        '))
             log.append({'rule': 'R7', 'loop': kidx, 'keyword': toks[lp[kidx - 1]][1], 'spliced_lines': len(lines)})
         for kidx, nm in ex.loop_iter.items():
             if kidx < 1 or kidx > len(lp):
-                raise Undecided('loop %d not found (%d loops)' % (kidx, len(lp)))
+                degraded.append('loop %d not found (%d loops)' % (kidx, len(lp)))
+                continue
             i = lp[kidx - 1]
             if toks[i][1] != 'for':
-                raise Undecided('loop %d is not a for loop' % kidx)
+                degraded.append('loop %d is not a for loop' % kidx)
+                continue
             j = i + 1
             while not (toks[j][0] == 'id' and toks[j][1] == 'in'):
                 if toks[j][0] == 'p' and toks[j][1] in OPEN:
@@ -769,13 +778,15 @@ def render_extract(ex, vac=False):
             body = body[:s] + newc + body[e:]
     for lit, lines in ex.before:
         if lit not in body:
-            raise Undecided('before: literal not found: %r' % lit)
+            degraded.append('before: literal not found: %r' % lit)
+            continue
         p = body.index(lit)
         body = body[:p] + '\n'.join(lines) + '\n        ' + body[p:]
         log.append({'rule': 'R7', 'before': lit, 'spliced_lines': len(lines)})
     for lit, lines in ex.after:
         if lit not in body:
-            raise Undecided('after: literal not found: %r' % lit)
+            degraded.append('after: literal not found: %r' % lit)
+            continue
         p = body.index(lit) + len(lit)
         body = body[:p] + '\n        ' + '\n'.join(lines) + '\n        ' + body[p:]
         log.append({'rule': 'R7', 'after': lit, 'spliced_lines': len(lines)})
@@ -804,7 +815,12 @@ def render_extract(ex, vac=False):
     ctext = ('\n' + '\n'.join(contract) + '\n    ') if contract else ''
     if ex.contract:
         log.append({'rule': 'R7', 'contract_lines': len(ex.contract)})
+    if degraded and not strip_proof:
+        text, log2, meta2 = render_extract(ex, vac=vac, strip_proof=True)
+        meta2['degraded'] = degraded + meta2.get('degraded', []) + ['all loop/ghost splices of this item dropped']
+        return text, log2, meta2
     meta['log'] = log
+    meta['degraded'] = degraded
     meta['name'] = (ex.rename or name)
     hdr = header.rstrip()
     return prefix + hdr + ctext + (' ' if not ctext else '') + body + '\n', log, meta
@@ -850,7 +866,11 @@ def build_unit(tpl_path, out_path, with_vac=True):
         m = LABEL_RE.search(l)
         if m:
             labels[n] = m.group(1)
-    return {'path': out_path, 'regions': regions, 'labels': labels, 'extraction_log': extraction_log, 'text': full}
+    degraded = []
+    for m in extraction_log:
+        for d in m.get('degraded', []):
+            degraded.append('%s: %s' % (m.get('name'), d))
+    return {'path': out_path, 'regions': regions, 'labels': labels, 'extraction_log': extraction_log, 'text': full, 'degraded': degraded}
 
 
 VERIF_FAIL_PATTERNS = [
@@ -1053,7 +1073,7 @@ def run_unit(tpl, workdir, seed=None):
     r = {'unit': name, 'status': cl['status'], 'generated': out, 'cmd': res['cmd'], 'retried': retried,
          'wall': time.time() - t0, 'times': smt_time(res['json']) if res['json'] else {},
          'obligations': obs, 'regions': [dict(r) for r in gen['regions']], 'extraction_log': gen['extraction_log'],
-         'trusted': scan_trusted(gen['text'])}
+         'trusted': scan_trusted(gen['text']), 'degraded': gen['degraded']}
     r.update({k: v for k, v in cl.items() if k != 'status'})
     if cl['status'] == 'rlimit':
         r['status'] = 'undecided'
